@@ -86,7 +86,7 @@ func (fv *FuncVerifier) evalCall(st *State, e *ast.CallExpr) []Val {
 		}
 	}
 	// call-site key for "after <callee>#k assert ..." directives
-	if len(fv.contract.Asserts) > 0 || len(fv.contract.Befores) > 0 {
+	if len(fv.contract.Asserts) > 0 || len(fv.contract.Befores) > 0 || len(fv.contract.BeforeLets) > 0 || len(fv.contract.AfterLets) > 0 {
 		name := ""
 		switch f := unparen(e.Fun).(type) {
 		case *ast.Ident:
@@ -104,6 +104,9 @@ func (fv *FuncVerifier) evalCall(st *State, e *ast.CallExpr) []Val {
 			k := fv.siteOcc[name]
 			fv.siteOcc[name] = k + 1
 			key := fmt.Sprintf("%s#%d", name, k)
+			if cls, ok := fv.contract.BeforeLets[key]; ok {
+				fv.bindLets(st, cls, e.Pos())
+			}
 			if cls, ok := fv.contract.Befores[key]; ok {
 				var errs []string
 				for i, cl := range cls {
@@ -115,7 +118,9 @@ func (fv *FuncVerifier) evalCall(st *State, e *ast.CallExpr) []Val {
 					fv.unsupported("spec errors in before-assert: " + strings.Join(errs, "; "))
 				}
 			}
-			if _, ok := fv.contract.Asserts[key]; ok {
+			_, hasA := fv.contract.Asserts[key]
+			_, hasL := fv.contract.AfterLets[key]
+			if hasA || hasL {
 				defer func() { fv.pendingAsserts = append(fv.pendingAsserts, key) }()
 			}
 		}
